@@ -15,6 +15,7 @@ import ArtVerif.Model.Codec
 import ArtVerif.Model.Raw
 import ArtVerif.Model.Tree
 import ArtVerif.Model.Iter
+import ArtVerif.Model.Api
 import ArtVerif.Model.Spec
 open ArtVerif
 
@@ -241,11 +242,6 @@ def setTree (s : DState) (t : Nat) (ts : TState) : DState :=
 def renderItems (xs : List (String × Nat)) : String :=
   if xs.isEmpty then "-" else String.intercalate "," (xs.map (fun (k, v) => s!"{k}:{v}"))
 
-/-- consumer used by the harness: collect, and answer `false` on the `stop`-th element (0 = never) -/
-def collect (stop : Nat) : T.Yield (List (T.Item Nat)) Nat := fun acc it =>
-  let acc' := it :: acc
-  (acc', !(stop != 0 && acc'.length == stop))
-
 def takeStop {α} (stop : Nat) (xs : List α) : List α := if stop == 0 then xs else xs.take stop
 
 inductive SeqSel where
@@ -253,7 +249,7 @@ inductive SeqSel where
   | range (a b : KeyRep) | rangeOpen (a : KeyRep) | pfx (p : Bytes)
 
 def modelSeq (ts : TState) (sel : SeqSel) (stop : Nat) : List (String × Nat) :=
-  let f := collect stop
+  let f := T.collect (V := Nat) stop
   let root := ts.model.root
   let items : List (T.Item Nat) :=
     match sel with
@@ -262,35 +258,14 @@ def modelSeq (ts : TState) (sel : SeqSel) (stop : Nat) : List (String × Nat) :=
     | .topk n => T.topK root n f []
     | .botk n => T.bottomK root n f []
     | .range a b =>
-      -- Range: swap so that start ≤ end in the tree's byte order, numeric `start == end` goes through Search
       match ts.kind with
-      | .num _ =>
-        if a.sk.id == b.sk.id then
-          match ts.model.search a.tk a.k with
-          | some v => (f [] (a.k, a.tk, v)).1
-          | none => []
-        else
-          let (lo, hi) := if lexLt b.k a.k then (b, a) else (a, b)
-          T.rangeScan root lo.k hi.k lo.tk hi.tk f []
-      | _ =>
-        let (lo, hi) := if lexLt b.k a.k then (b, a) else (a, b)
-        T.rangeScan root lo.k hi.k lo.tk hi.tk f []
-    | .rangeOpen a =>
-      match ts.model.maximum with
-      | none => []
-      | some (mk, mtk, _) =>
-        let (lo, hi) := if lexLt mk a.k then ((mk, mtk), (a.k, a.tk)) else ((a.k, a.tk), (mk, mtk))
-        T.rangeScan root lo.1 hi.1 lo.2 hi.2 f []
+      | .num _ => ts.model.rangeNum a.k b.k f []
+      | _ => ts.model.rangeBytes a.k b.k f []
+    | .rangeOpen a => ts.model.rangeOpen a.k f []
     | .pfx p =>
       match ts.kind with
-      | .alpha =>
-        if p.isEmpty then T.all root f []
-        else
-          let sub := root.bind (fun r => T.lowestCommonParent (p.length + 2) r p 0)
-          T.filter sub (fun it => hasPrefix it.1.dropLast p) f []
-      | _ =>
-        if p.isEmpty then T.all root f []
-        else T.filter root (fun it => hasPrefix it.1 p) f []
+      | .alpha => ts.model.prefixBytes p f []
+      | _ => ts.model.prefixColl p f []
   items.reverse.map (fun (k, _, v) => (restoreLit ts.kind k, v))
 
 def specSeq (ts : TState) (sel : SeqSel) (stop : Nat) : List (String × Nat) :=
